@@ -1061,3 +1061,39 @@ Proof.
   intros T E. rewrite (schedule_independent coded c [] r s o E).
   apply (terr_fails coded true c [] r T). reflexivity.
 Qed.
+
+(* ---------- histories: a load does not depend on what the process loaded before ---------- *)
+Definition load_of (cr : ctx * role) : res := load (fst cr) (snd cr).
+
+Lemma history_independent ss : forall h outs,
+  run_history ss h = Some outs -> outs = map load_of h.
+Proof.
+  induction ss as [|s ss IH]; intros h outs E.
+  - destruct h as [|[c r] h]; cbn in E; [inversion E; reflexivity|discriminate].
+  - destruct h as [|[c r] h]; cbn [run_history] in E; [inversion E; reflexivity|].
+    destruct (run coded s (WTodo c [] r)) as [| | |o] eqn:Er; try discriminate.
+    destruct (run_history ss h) as [t|] eqn:Eh; [|discriminate].
+    inversion E; subst. cbn [map]. f_equal.
+    + apply (schedule_independent coded c [] r s o Er).
+    + apply IH. exact Eh.
+Qed.
+
+(* whatever was loaded before, under whatever schedules: the last load of two histories that end
+   with the same template and variables gives the same result *)
+Lemma history_prefix_irrelevant ss1 ss2 h1 h2 c r outs1 outs2 :
+  run_history ss1 (h1 ++ [(c, r)]) = Some outs1 ->
+  run_history ss2 (h2 ++ [(c, r)]) = Some outs2 ->
+  last outs1 Err = load c r /\ last outs2 Err = load c r.
+Proof.
+  intros E1 E2. apply history_independent in E1. apply history_independent in E2.
+  subst. rewrite !map_app. cbn [map]. rewrite !last_last. split; reflexivity.
+Qed.
+
+(* every history can be run: the sequential loader finishes each load *)
+Lemma history_complete h : exists ss, run_history ss h = Some (map load_of h).
+Proof.
+  induction h as [|[c r] h [ss IH]].
+  - exists []. reflexivity.
+  - destruct (schedule_complete coded c [] r) as [s Hs]. exists (s :: ss).
+    cbn [run_history]. rewrite Hs, IH. reflexivity.
+Qed.
